@@ -44,7 +44,7 @@ def both_given(ctx):
 def run(ctx):
     drv = common.LeanDriver()
     both_given(ctx)
-    per = ctx.scale(40, 400)
+    per = ctx.scale(120, 600)
     reqs, metas = [], []
     for sim in SIMS:
         for k in range(per):
@@ -61,6 +61,10 @@ def run(ctx):
             if not out["ok"]:
                 ctx.case(rep, nontrivial=False)
                 ctx.violation("%s raised %s on a consistent initial condition" % (sim, out["err"]), dict(rep, error=out["err"], tb=out.get("tb")))
+                continue
+            if sim in ("fast_SIR", "fast_nonMarkov_SIR") and allsims.zero_delay_at_tmin(c, out):
+                ctx.count("skipped:zero-delay-at-tmin")
+                ctx.case(rep, nontrivial=False)
                 continue
             infs, recs = allsims.requested_init(c, out)
             if infs is None:
